@@ -7,6 +7,7 @@ import (
 	"github.com/hydraide/hydraide/app/core/hydra/swamp/treasure"
 	"github.com/hydraide/hydraide/app/core/hydra/swamp/treasure/guard"
 	"github.com/hydraide/hydraide/app/core/hydra/swamp/treasure/msgpackpatch"
+	"github.com/hydraide/hydraide/app/verifhook"
 )
 
 // PatchFieldsStatus categorizes the per-key outcome of a PatchFields call.
@@ -199,6 +200,9 @@ func (s *swamp) PatchFields(key string, ops []msgpackpatch.Op, condition *msgpac
 		createdNew = true
 	}
 
+	if verifhook.Enabled {
+		verifhook.Yield("patchfields.fetched", s, key)
+	}
 	guardID := treasureObj.StartTreasureGuard(true)
 	defer treasureObj.ReleaseTreasureGuard(guardID)
 
@@ -253,6 +257,7 @@ func (s *swamp) PatchFields(key string, ops []msgpackpatch.Op, condition *msgpac
 	// untouched). The caller (gateway) has already pre-counted matching
 	// records and holds capMu, so the running CapBudgetLeft observed by
 	// concurrent batches is consistent.
+	var vhPre, vhPost, vhCell bool // verif: the accepted four-cell decision is reported after the save
 	if opts.CapPredicate != nil {
 		preMatched := false
 		if !isCreate {
@@ -261,9 +266,15 @@ func (s *swamp) PatchFields(key string, ops []msgpackpatch.Op, condition *msgpac
 		postMatched := opts.CapPredicate(out)
 		if !preMatched && postMatched {
 			if opts.CapBudgetLeft == nil || *opts.CapBudgetLeft <= 0 {
+				if verifhook.Enabled {
+					verifhook.Trace("cap.cell", "s", s, "key", key, "pre", preMatched, "post", postMatched, "accepted", false, "left", int32(0))
+				}
 				return PatchFieldsResult{Status: PatchStatusCapExceeded}, nil
 			}
 			*opts.CapBudgetLeft--
+		}
+		if verifhook.Enabled {
+			vhPre, vhPost, vhCell = preMatched, postMatched, opts.CapBudgetLeft != nil
 		}
 	}
 
@@ -271,6 +282,12 @@ func (s *swamp) PatchFields(key string, ops []msgpackpatch.Op, condition *msgpac
 	applyPatchMeta(treasureObj, guardID, opts.Meta, isCreate)
 	treasureObj.Save(guardID)
 	saved = true
+	if verifhook.Enabled && vhCell {
+		verifhook.Trace("cap.cell", "s", s, "key", key, "pre", vhPre, "post", vhPost, "accepted", true, "left", *opts.CapBudgetLeft)
+	}
+	if verifhook.Enabled {
+		verifhook.Trace("patch.saved", "s", s, "t", treasureObj, "key", key, "cap", opts.CapPredicate != nil)
+	}
 
 	if isCreate {
 		return PatchFieldsResult{Status: PatchStatusCreated, NewMsgpack: out}, nil
